@@ -39,7 +39,7 @@ def numeric_columns(a, frame):
     """Reference columns of a numeric atom on `frame`, computed independently of the term machinery
     (bs / poly: by calling the transform class directly - their own contracts are C14's business)."""
     v = frame[NUM_ATOMS[a]].to_numpy(dtype=float)
-    if a in ("x", "z", "w"):
+    if a in ("x", "z", "w", "y"):
         return v[:, None]
     if a.startswith("center("):
         return (v - v.mean())[:, None]
@@ -139,15 +139,22 @@ def split_top(label, sep=":"):
 
 
 def piece_value(piece, frame, atoms):
-    """Column denoted by one label piece: `atom` (numeric values) or `atom[level]` (indicator)."""
+    """Column denoted by one label piece: `atom` (numeric values), `atom[i]` (i-th column of a
+    multi-column numeric atom) or `atom[level]` (indicator of a categorical atom)."""
     for a in sorted(atoms, key=len, reverse=True):
         name = atom_label_name(a)
-        if piece == name:
-            return frame[atom_base(a)].to_numpy(dtype=float)
+        if piece == name and not is_cat(a):
+            cols = numeric_columns(a, frame)
+            if cols.shape[1] != 1:
+                raise KeyError(f"label {piece!r} names a {cols.shape[1]}-column atom without a column index")
+            return cols[:, 0]
         if piece.startswith(name + "[") and piece.endswith("]"):
             level = piece[len(name) + 1 : -1]
-            col = frame[atom_base(a)]
-            return np.array([str(v) == level for v in col.tolist()], dtype=float)
+            if is_cat(a):
+                col = frame[atom_base(a)]
+                return np.array([str(v) == level for v in col.tolist()], dtype=float)
+            cols = numeric_columns(a, frame)
+            return cols[:, int(level)]
     raise KeyError(f"label piece {piece!r} names no atom of the formula")
 
 
